@@ -230,6 +230,11 @@ def run(chk):
         # to this property's operations
         from .pipeline import run_pipelines
         run_pipelines(chk, "C08")
+    if chk.tier != "quick":
+        # generated workflows (spec/PipelineGen.tla -> real API -> Pipeline.tla):
+        # the steps that belong to this property's operations
+        from .chains import run_chains
+        run_chains(chk, 60, cfg="PipelineGen_l6.cfg", only_prop="C08")
     return chk.finish(
         rule="(a) order_substitutions on every index map of 4 (thorough: 5) "
              "same-space indices into a pool with extra names (chains, cycles, "
